@@ -29,6 +29,7 @@ import (
 
 	"verifharness/internal/mpxh"
 	"verifharness/internal/poolrec"
+	"verifharness/internal/tscale"
 )
 
 type Event struct {
@@ -151,7 +152,7 @@ func randomConfig(rng *rand.Rand, quick bool) config {
 	return c
 }
 
-const opTimeout = 10 * time.Second
+var opTimeout = tscale.D(10 * time.Second)
 
 type side struct {
 	run   int
@@ -390,7 +391,7 @@ func runOnce(run int, cfg config, rec *recorder, cutAfter int64, found func(sig,
 	go func() {
 		wg.Wait()
 		// every opened channel reaches the server's handler (without a fault); with a fault wait for stragglers
-		deadline := time.Now().Add(2 * time.Second)
+		deadline := time.Now().Add(tscale.D(2 * time.Second))
 		if cutAfter >= 0 {
 			deadline = time.Now().Add(200 * time.Millisecond)
 		}
@@ -416,8 +417,8 @@ func runOnce(run int, cfg config, rec *recorder, cutAfter int64, found func(sig,
 		if mode == mpx.ClientMode_AutoConnect {
 			select {
 			case <-client.Connected().Wait():
-			case <-time.After(5 * time.Second):
-				found("no-reconnect", "auto-connect client did not reconnect within 5 s after the fault")
+			case <-time.After(tscale.D(5 * time.Second)):
+				found("no-reconnect", fmt.Sprintf("auto-connect client did not reconnect within %v after the fault", tscale.D(5*time.Second)))
 			}
 		}
 		func() {
@@ -429,7 +430,7 @@ func runOnce(run int, cfg config, rec *recorder, cutAfter int64, found func(sig,
 			var last status.Status
 			ok := false
 			for try := 0; try < 3 && !ok; try++ {
-				ctx := async.TimeoutContext(5 * time.Second)
+				ctx := async.TimeoutContext(tscale.D(5 * time.Second))
 				ch, st := client.Channel(ctx)
 				if !st.OK() {
 					last = st
